@@ -513,7 +513,7 @@ func (v *Verifier) applyContractS(st *State, con *Contract, cpkg *types.Package,
 		v.ghostUpdate(st, &env2, gu, what)
 	}
 	env2.mode = 1
-	for _, en := range con.Ensures {
+	for _, en := range append(append([]*Clause{}, con.Ensures...), con.Names...) {
 		g, err := env2.evalBool(en.Expr)
 		if err != nil {
 			v.errorf("ensures %s of %s: %v", en.Label, what, err)
@@ -1865,6 +1865,17 @@ func (v *Verifier) verifyFunc(fn *ssa.Function, con *Contract, name string) {
 			v.topVars[fv.Name()] = Val{t, fv.Type()}
 		}
 	}
+	if len(con.SelfFacts) > 0 {
+		senv := &Env{v: v, st: st, vars: map[string]Val{}, pkg: cpkg, frame: f}
+		senv.vars["self"] = Val{v.selfClosure(fn, f), fn.Signature}
+		for _, sf := range con.SelfFacts {
+			if g, err := senv.evalBool(sf.Expr); err == nil {
+				st.assume(g)
+			} else {
+				v.errorf("selffact %s: %v", sf.Label, err)
+			}
+		}
+	}
 	stBare := st.clone() // parameters and type facts only: used for the behavioural-subtyping check of `implements`
 	env := &Env{v: v, st: st, vars: v.topVars, pkg: cpkg, frame: f, mode: 1}
 	for _, rq := range append(append(append([]*Clause{}, con.Requires...), con.Captures...), con.Unfolds...) {
@@ -2011,6 +2022,12 @@ func (v *Verifier) verifyFunc(fn *ssa.Function, con *Contract, name string) {
 
 // specSort resolves a sort name used in a specfun signature: an SMT/spec sort name, or a Go type expression.
 func (v *Verifier) specSort(name, pkg string) string {
+	switch name {
+	case "F64":
+		return sortF64
+	case "F32":
+		return sortF32
+	}
 	if isSpecSort(name) || strings.HasPrefix(name, "(") || v.D.seen["sort:"+name] {
 		return name
 	}
